@@ -93,7 +93,17 @@ def recheck_declared(p, key, viol, obs, when="after the instance was used", firs
     if obs is not None and first is None:
         hk = int.from_bytes(__import__("hashlib").sha256(repr(list(key)).encode()).digest()[:2], "little")
         dim = p.numberOfFloatVariables
-        if hk % 3 == 0:
+        if hk % 16 == 5 and dim <= 12:
+            # a long-lived instance: 6000 further evaluations at distinct random points of the box before the declaration is read again
+            x0, f0 = bench.declared(p)
+            lo_, hi_ = bench.bounds(p)
+            g = np.random.default_rng(hk)
+            for y in lo_ + g.random((6000, dim)) * (hi_ - lo_):
+                bench.evaluate(p, y)
+            obs["rechecked_after_6000_more_evaluations"] = obs.get("rechecked_after_6000_more_evaluations", 0) + 1
+            first = (x0, f0)
+            when = "after 6000 further evaluations on the same object"
+        elif hk % 3 == 0:
             x0, f0 = bench.declared(p)
             variant = 1 + hk // 3 % 3 + 4 * (hk // 9)
             if dim > 12:
